@@ -60,9 +60,6 @@ def pipelineSearch (shards : List RShard) (q : Q) : List (Nat × Nat) :=
     | none => []
     | some rs => (selected ctx rs.shard (expand (shardSimplify rs.shard sel.2))).map fun j => (i, j)
 
-/-- `HEAD` names the repository's first branch and only that one -/
-def headFirstB (r : Repo) : Bool := r.branches.head? == some HEAD && !(r.branches.drop 1).contains HEAD
-
 def failKeySel (shards : List RShard) (q : Q) : String :=
   -- the known class: the first filter child is a single-entry BranchesRepos for the branch "HEAD", and some listed
   -- repository does not have HEAD as its first and only so-named branch (C18_union_partial's hypothesis fails)
